@@ -124,9 +124,9 @@ def replay_transition(universe: int, state: dict) -> dict:
         fails.append('C13_effect')
     elif got != want:
         conf.append('Conf_member_seq')
-    if res is not src_obj and op in ('copy', 'sort', 'sort_by'):
-        if project(codec, src_obj) != src:
-            fails.append('C13_copy_aliasing')
+    if op in ('copy', 'sort', 'sort_by'):
+        if res is src_obj or project(codec, src_obj) != src:
+            fails.append('C13_copy_aliasing')        # a new object is returned, the source is left as it was
     # observers against the spec's expectation
     obs = state['obs']
     codes = sorted(norm_fn(obs['get']).keys()) if not isinstance(obs['get'], list) else None
@@ -284,14 +284,15 @@ def random_history(seed: int, length: int, universe: int = 8) -> dict:
     empty = {'order': [], 'content': []}
     for step in range(length):
         op, args = _valid_ops(rng, st, ucodes, fresh=(gl is None))
-        ev = {'op': 'fromlist' if op == 'fromarray' else op, 'a': args, 'exc': 0}
+        ev = {'op': 'fromlist' if op == 'fromarray' else op, 'a': args, 'exc': 0, 'fresh': 1}
         real_args = [dict((p[0], p[1]) for p in a) if (op in ('fromdict', 'update') and i == 1) else a
                      for i, a in enumerate(args)]
         try:
             old = gl
             res = apply_op(codec, gl, op, real_args)
-            if op == 'copy':
-                shadow_obj = old
+            if op in ('copy', 'sort', 'sort_by'):
+                shadow_obj = old                 # these return a new object: the old one must stay as it was
+                ev['fresh'] = int(res is not old)
             gl = res
         except Exception as e:      # noqa
             ev['exc'] = 1
